@@ -170,6 +170,18 @@ pub fn suite_pin(t: &mut Tracer, thorough: bool, seed: u64) {
             emit(t, "pin_chain", m, meas.panicked);
         }
     }
+    // -- the default policy trusts the platform's roots, not whatever the environment names
+    {
+        let rt = tokio::runtime::Builder::new_multi_thread().worker_threads(2).enable_all().build().unwrap();
+        let scratch = std::env::temp_dir().join(format!("wtv-pin-{}", std::process::id()));
+        let _ = std::fs::create_dir_all(&scratch);
+        let mut m = Map::new();
+        for (k, v) in rt.block_on(crate::e2e::measure_native_with_env(scratch.to_str().unwrap_or("/tmp"))) {
+            put(&mut m, &k, v);
+        }
+        let _ = std::fs::remove_dir_all(&scratch);
+        emit(t, "pin_env", m, false);
+    }
     // -- the pin is checked against the clock on every connection of an endpoint, not only the first
     {
         let rt = tokio::runtime::Builder::new_multi_thread().worker_threads(2).enable_all().build().unwrap();
@@ -489,6 +501,46 @@ pub fn suite_ident(t: &mut Tracer, thorough: bool, seed: u64, scratch: &str) {
         }
         emit(t, "pem_rt", m, meas.panicked);
     }
+    // an identity whose key file is in the SEC1 ("EC PRIVATE KEY") form: loaded, cloned, and the clone
+    // still usable as a TLS identity (the key's encoding kind travels with it)
+    {
+        let id = Identity::self_signed(["localhost"]).expect("id");
+        let cp = format!("{scratch}/sec1_cert.pem");
+        let kp = format!("{scratch}/sec1_key.pem");
+        let sec1 = pkcs8_inner_key(id.private_key().secret_der());
+        let meas = measure(|| {
+            rt.block_on(async {
+                let sec1 = sec1.clone().ok_or_else(|| "no inner key".to_string())?;
+                id.certificate_chain().store_pemfile(&cp).await.map_err(|e| e.to_string())?;
+                std::fs::write(&kp, pem_of("EC PRIVATE KEY", &sec1)).map_err(|e| e.to_string())?;
+                let back = Identity::load_pemfiles(&cp, &kp).await.map_err(|e| e.to_string())?;
+                let clone = back.clone_identity();
+                let usable = std::panic::catch_unwind(std::panic::AssertUnwindSafe(|| {
+                    let _ = wtransport::tls::server::build_default_tls_config(clone.clone_identity());
+                }))
+                .is_ok();
+                let same_bytes = clone.private_key().secret_der() == back.private_key().secret_der()
+                    && back.private_key().secret_der() == sec1.as_slice();
+                Ok::<_, String>((back.certificate_chain().as_slice().len(), same_bytes && usable))
+            })
+        });
+        let mut m = Map::new();
+        put(&mut m, "what", json!("identity_sec1_clone"));
+        put(&mut m, "n", json!(1));
+        match &meas.value {
+            Some(Ok((n, same))) => {
+                put(&mut m, "res", json!("ok"));
+                put(&mut m, "n_back", json!(n));
+                put(&mut m, "same", json!(same));
+            }
+            Some(Err(e)) => {
+                put(&mut m, "res", json!("err"));
+                put(&mut m, "text", json!(e));
+            }
+            None => put(&mut m, "res", json!("panic")),
+        }
+        emit(t, "pem_rt", m, meas.panicked);
+    }
     // -- corrupt PEM / DER
     let good_pem = certs[0].to_pem();
     let good_key_pem = PrivateKey::from_der_pkcs8(keys[0].clone()).to_secret_pem();
@@ -661,6 +713,36 @@ pub fn suite_ident(t: &mut Tracer, thorough: bool, seed: u64, scratch: &str) {
         }
         emit(t, "digest_bad", m, meas.panicked);
     }
+}
+
+/// The privateKey OCTET STRING of a PKCS#8 PrivateKeyInfo (for an EC key: the SEC1 ECPrivateKey).
+fn pkcs8_inner_key(der: &[u8]) -> Option<Vec<u8>> {
+    fn tlv(b: &[u8]) -> Option<(u8, &[u8], &[u8])> {
+        let tag = *b.first()?;
+        let l0 = *b.get(1)? as usize;
+        let (len, hdr) = if l0 < 0x80 {
+            (l0, 2)
+        } else {
+            let n = l0 & 0x7f;
+            let mut len = 0usize;
+            for i in 0..n {
+                len = (len << 8) | *b.get(2 + i)? as usize;
+            }
+            (len, 2 + n)
+        };
+        Some((tag, b.get(hdr..hdr + len)?, b.get(hdr + len..)?))
+    }
+    let (t, body, _) = tlv(der)?;
+    if t != 0x30 {
+        return None;
+    }
+    let (_, _version, rest) = tlv(body)?;
+    let (_, _alg, rest) = tlv(rest)?;
+    let (t, key, _) = tlv(rest)?;
+    if t != 0x04 {
+        return None;
+    }
+    Some(key.to_vec())
 }
 
 fn pem_of(label: &str, der: &[u8]) -> Vec<u8> {
@@ -967,14 +1049,19 @@ pub fn suite_cfg(t: &mut Tracer, thorough: bool, _seed: u64) {
     }
     // -- idle timeout / keep-alive in effect (the raw peer is silent and patient)
     for side in ["server", "client"] {
-        for (idle_ms, keep) in [(500u64, None), (500, Some(100u64)), (900, None)] {
+        for (idle_ms, keep, then_off) in [(500u64, None, false), (500, Some(100u64), false), (900, None, false), (600, Some(100u64), true)] {
             let scn = json!({"scn": "cfg-idle", "role": side, "peer": "raw",
                 "cfg": {"idle_ms": idle_ms, "keepalive_ms": keep, "peer_idle_ms": 30000},
                 "steps": []});
             let mut scn = scn;
-            if keep.is_none() {
+            if keep.is_none() || then_off {
                 scn["cfg"].as_object_mut().unwrap().remove("keepalive_ms");
             }
+            // switched on and then off again on the same builder: off
+            if then_off {
+                scn["cfg"]["keepalive_then_off_ms"] = json!(keep.unwrap_or(100));
+            }
+            let keep = if then_off { None } else { keep };
             let mut m = Map::new();
             put(&mut m, "side", json!(side));
             put(&mut m, "idle_ms", json!(idle_ms));
